@@ -65,6 +65,9 @@ D17 == << [N("OP", 0, "A", "query") EXCEPT !.vdefs = <<VDef("v", <<"NN", "Boolea
 \* D18 (invalid): the same operation name borne by a query and by a mutation   query A { s }  mutation A { m3 }
 D18 == << N("OP", 0, "A", "query"), N("F", 1, "s", ""), N("OP", 0, "A", "mutation"), N("F", 3, "m3", "") >>
 
+\* D19 (invalid): two anonymous operations and no named one   { s }  { i }
+D19 == << N("OP", 0, "", "query"), N("F", 1, "s", ""), N("OP", 0, "", "query"), N("F", 3, "i", "") >>
+
 DocsStd == [ D1 |-> [class |-> "valid", nodes |-> D1], D2 |-> [class |-> "valid", nodes |-> D2],
              D3 |-> [class |-> "invalid", nodes |-> D3], D4 |-> [class |-> "broken", nodes |-> D4],
              D5 |-> [class |-> "valid", nodes |-> D5], D6 |-> [class |-> "valid", nodes |-> D6],
@@ -72,7 +75,8 @@ DocsStd == [ D1 |-> [class |-> "valid", nodes |-> D1], D2 |-> [class |-> "valid"
              D9 |-> [class |-> "valid", nodes |-> D9], D10 |-> [class |-> "valid", nodes |-> D10], D11 |-> [class |-> "invalid", nodes |-> D11],
              D12 |-> [class |-> "valid", nodes |-> D12], D13 |-> [class |-> "valid", nodes |-> D13], D14 |-> [class |-> "valid", nodes |-> D14],
              D15 |-> [class |-> "valid", nodes |-> D15], D16 |-> [class |-> "valid", nodes |-> D16],
-             D17 |-> [class |-> "valid", nodes |-> D17], D18 |-> [class |-> "invalid", nodes |-> D18] ]
+             D17 |-> [class |-> "valid", nodes |-> D17], D18 |-> [class |-> "invalid", nodes |-> D18],
+             D19 |-> [class |-> "invalid", nodes |-> D19] ]
 
 Rq(d, sp, opn, g) == [doc |-> d, spelling |-> sp, opName |-> opn, given |-> g]
 PoolStd == { Rq("D1", "str", "A", <<>>), Rq("D1", "str", "B", <<>>), Rq("D1", "bytes", "A", <<>>), Rq("D1", "str", "", <<>>),
@@ -81,7 +85,7 @@ PoolStd == { Rq("D1", "str", "A", <<>>), Rq("D1", "str", "B", <<>>), Rq("D1", "b
              Rq("D3", "str", "", <<>>), Rq("D4", "str", "", <<>>), Rq("D4", "bytes", "", <<>>), Rq("D5", "str", "M", <<>>),
              Rq("D6", "str", "", [n |-> Int(3)]), Rq("D6", "str", "", [n |-> Int(4)]), Rq("D6", "bytes", "", <<>>), Rq("D7", "str", "", <<>>), Rq("D8", "str", "", <<>>) }
 \* C18: the operation-selection x variables matrix (one request per behaviour)
-PoolEnv == PoolStd \cup { Rq("D18", "str", "A", <<>>), Rq("D18", "str", "", <<>>), Rq("D17", "str", "", [c |-> Str("x")]), Rq("D17", "str", "Zzz", [c |-> Str("x")]), Rq("D17", "str", "B", [c |-> Str("x")]),
+PoolEnv == PoolStd \cup { Rq("D19", "str", "", <<>>), Rq("D19", "bytes", "", <<>>), Rq("D18", "str", "A", <<>>), Rq("D18", "str", "", <<>>), Rq("D17", "str", "", [c |-> Str("x")]), Rq("D17", "str", "Zzz", [c |-> Str("x")]), Rq("D17", "str", "B", [c |-> Str("x")]),
                           Rq("D17", "str", "A", [c |-> Str("x")]), Rq("D17", "str", "A", [v |-> Bool(FALSE), c |-> Str("x")]), Rq("D2", "str", "", [v |-> Bool(TRUE), extra |-> Int(1)]), Rq("D2", "str", "", [v |-> Null]),
                           Rq("D2", "str", "Nope", [v |-> Bool(TRUE)]), Rq("D5", "str", "", <<>>), Rq("D5", "bytes", "X", <<>>),
                           Rq("D3", "bytes", "A", <<>>), Rq("D4", "str", "A", [v |-> Bool(TRUE)]) }
